@@ -101,44 +101,74 @@ Proof. exact ex_history. Qed.
 Print Assumptions C02_ex_history.
 
 (** (b) Initial CRYPTO under loss (model UDial.Retx of retransmissionQueue + maybeGetCryptoPacket
-    + MarshalInitialPacketPayload). What one packing call takes out of the retransmission queue
-    is, byte for byte, what the queue loses (the ranges re-sent are the ranges lost) ... *)
+    + MarshalInitialPacketPayload, after fixes/C02-initial-retx-as-packed.patch). What one packing
+    call takes out of the retransmission queue is, byte for byte, what the queue loses (the ranges
+    re-sent are the ranges lost) ... *)
 Theorem C02_initial_retx_resent_is_lost : forall popped q q',
   pop_check q popped = Some q' -> forall b, covers b q <-> covers b popped \/ covers b q'.
 Proof. exact pop_check_covers. Qed.
 Print Assumptions C02_initial_retx_resent_is_lost.
 
-(** ... and for every history of losses, acknowledgements and packing calls that does not run
-    into the packer's error, every ClientHello byte the first flight carried is still
-    acknowledged, outstanding or queued. *)
-Theorem C02_initial_retx_complete : forall planned flight n ops st' rs,
+(** ... no packing call, loss or acknowledgement ends in an error, whatever the builder, the
+    layout, the ranges taken ... *)
+Theorem C02_initial_retx_never_errors : forall planned layout st o st' res,
+  rstep planned layout st o = Some (st', res) -> is_err res = false.
+Proof. exact rstep_never_errors. Qed.
+Print Assumptions C02_initial_retx_never_errors.
+
+(** ... and for EVERY history of losses, acknowledgements and packing calls no result is an
+    error and every ClientHello byte the first flight carried is still acknowledged, outstanding
+    or queued. *)
+Theorem C02_initial_retx_complete : forall planned layout flight n ops st' rs,
   (forall b, 0 <= b < n -> covers b (flat_map snd flight)) ->
-  rrun planned (RS flight [] []) ops = Some (st', rs) -> existsb is_err rs = false ->
-  forall b, 0 <= b < n -> covers b (all_ranges st').
+  rrun planned layout (RS flight [] []) ops = Some (st', rs) ->
+  existsb is_err rs = false /\ forall b, 0 <= b < n -> covers b (all_ranges st').
 Proof. exact flight_stays_covered. Qed.
 Print Assumptions C02_initial_retx_complete.
 
-(** Packing a retransmission errs exactly when no flight builder planned the flight and the
-    ranges taken from the queue are not contiguous (clienthellod.ReassembleCRYPTOFrames) ... *)
-Theorem C02_initial_retx_error_iff : forall planned st probe before popped after r0 st' res,
-  rstep planned st (RPack probe before popped after r0) = Some (st', res) ->
+(** The spec's frame builder is consulted only for ONE contiguous, non-empty slice of the
+    ClientHello which a QUICFrames layout fits -- never for a PING-only probe, a retransmission
+    with a gap, a slice shorter than the layout, or after a planned flight. *)
+Theorem C02_initial_retx_builder_precondition : forall planned layout frames,
+  marshal_path planned layout frames = Reframed ->
+  planned = false /\ 0 < total_len frames /\ contiguous frames = true /\
+  (forall l, layout = Some l -> layout_fits l (total_len frames) = true).
+Proof. exact reframed_only_one_range. Qed.
+Print Assumptions C02_initial_retx_builder_precondition.
+
+(** Before the repair (legacy_rstep) a packing call erred exactly when no flight builder planned
+    the flight and the ranges taken were not contiguous ... *)
+Theorem C02_initial_retx_legacy_error_iff : forall planned st probe ping before popped after asp r0 st' res,
+  legacy_rstep planned st (RPack probe ping before popped after asp r0) = Some (st', res) ->
   (is_err res = true <-> planned = false /\ popped <> [] /\ contiguous popped = false).
-Proof. exact rstep_error_iff. Qed.
-Print Assumptions C02_initial_retx_error_iff.
+Proof. exact legacy_rstep_error_iff. Qed.
+Print Assumptions C02_initial_retx_legacy_error_iff.
 
-(** ... which refutes "packing a retransmission never returns an error": three Initial
-    datagrams of 300 CRYPTO bytes, the middle one acknowledged, the outer two lost together:
-    both ranges go into one packet, the packer fails, and byte 0 is accounted for nowhere. *)
-Theorem C02_initial_retx_never_errors_refuted :
+(** ... reachable with three Initial datagrams of 300 CRYPTO bytes, the middle one acknowledged,
+    the outer two lost together (byte 0 was then accounted for nowhere). *)
+Theorem C02_initial_retx_legacy_refuted :
   (forall b, 0 <= b < 900 -> covers b (flat_map snd ex_flight)) /\
-  exists st', rrun false (RS ex_flight [] []) ex_ops = Some (st', [RNone; RNone; RNone; RErr 1]) /\
+  exists st', legacy_rrun false (RS ex_flight [] []) ex_ops = Some (st', [RNone; RNone; RNone; RErr 1]) /\
               ~ covers 0 (all_ranges st').
-Proof. exact retx_error_reachable. Qed.
-Print Assumptions C02_initial_retx_never_errors_refuted.
+Proof. exact legacy_retx_error_reachable. Qed.
+Print Assumptions C02_initial_retx_legacy_refuted.
 
-(** Non-vacuity of C02_initial_retx_complete: the same losses after a planned flight. *)
-Example C02_ex_retx_planned :
-  exists st', rrun true (RS ex_flight [] []) ex_ops = Some (st', [RNone; RNone; RNone; RPkt 0 [(0, 300); (600, 300)]]) /\
+(** Regression: the same history now yields one packet carrying both ranges as the packer
+    selected them, every byte accounted for. *)
+Example C02_ex_retx_witness_handled :
+  marshal_path false None [(0, 300); (600, 300)] = AsPacked /\
+  exists st', rrun false None (RS ex_flight [] []) ex_ops = Some (st', [RNone; RNone; RNone; RPkt 3 [(0, 300); (600, 300)]]) /\
               forall b, 0 <= b < 900 -> covers b (all_ranges st').
-Proof. exact retx_planned_ok. Qed.
-Print Assumptions C02_ex_retx_planned.
+Proof. exact retx_witness_handled. Qed.
+Print Assumptions C02_ex_retx_witness_handled.
+
+(** Non-vacuity of the builder precondition: a layout cutting at offset 35 is not applied to 5
+    left-over bytes nor to an empty probe, it is applied to a 1200-byte slice. *)
+Example C02_ex_layouts :
+  let l := [LCrypto 35 0; LOther; LCrypto 0 35] in
+  marshal_path false (Some l) [(2475, 5)] = AsPacked /\
+  marshal_path false (Some l) [] = AsPacked /\
+  marshal_path false (Some l) [(0, 700); (700, 500)] = Reframed /\
+  marshal_path true (Some l) [(0, 700)] = AsPacked.
+Proof. exact layout_examples. Qed.
+Print Assumptions C02_ex_layouts.
